@@ -83,6 +83,10 @@ def tla_set(items):
 def run_many(jobs, parallel=3):
     """jobs: list of (name, kwargs for common.run_tlc incl. 'module'). Runs them concurrently."""
     out = {}
+    cap = os.environ.get("VERIF_TLC_CAP")         # development on a shared box: VERIF_TLC_CAP=4
+    if cap:
+        parallel = min(parallel, 2)
+        jobs = [(n, dict(kw, workers=min(int(cap), kw.get("workers") or int(cap)))) for n, kw in jobs]
     with concurrent.futures.ThreadPoolExecutor(max_workers=parallel) as ex:
         futs = {}
         for name, kw in jobs:
@@ -139,6 +143,8 @@ def trace_validate(events, groups=64, workers=None, timeout=2400):
             for e in events:
                 fh.write(json.dumps(e, separators=(",", ":")) + "\n")
         g = max(1, min(groups, len(events)))
+        if os.environ.get("VERIF_TLC_CAP"):
+            workers = int(os.environ["VERIF_TLC_CAP"])
         r = common.run_tlc("MC_EncTrace", constants_text=cfg_text({"Groups": g}, invariants=("Verdict",)),
                            env={"TRACE": path}, workers=workers, timeout=timeout)
         if r.error or r.rc != 0:
@@ -315,6 +321,11 @@ def check_roundtrip(cid, c, res):
         n = len(vals)
         r = res.get(cid)
         defect = has_partial_group_before_long_run(vals)
+        if r and "pad" in c and int(r[0]) == 0:
+            # the name of the known defect is only used when the modelled "pad" policy explains the
+            # failure exactly: carquet wrote the very bytes the model of that policy writes, and TLC
+            # found that those bytes do not parse back to the values
+            defect = defect and unhex_list(r[1]) == c["pad"]["bytes"] and not c["pad"]["refines"]
         tag = "rle-enc:partial-literal-group-then-run>=8" if defect else "rle:roundtrip-values"
         base = {"bw": bw, "vals": c["vals"]} if "vals" in c else {"bw": bw, "w": c["w"]}
         if r:
@@ -517,12 +528,12 @@ def check_roundtrip(cid, c, res):
     raise InfraError("unknown case kind " + k)
 
 
-def trace_signature(c, verdict):
+def trace_signature(c, verdict, got_bytes=None):
     """name a TLC rejection of carquet-written bytes"""
     k = c["kind"]
     why = verdict.get("why", "")
     if k == "hyb":
-        if has_partial_group_before_long_run(hyb_values(c)):
+        if has_partial_group_before_long_run(hyb_values(c)) and ("pad" not in c or (got_bytes == c["pad"]["bytes"] and not c["pad"]["refines"])):
             return "rle-enc:partial-literal-group-then-run>=8"
         return "rle-enc:stream-rejected:" + why
     if k == "dict":
